@@ -17,6 +17,8 @@ pub enum Op {
     Set(&'static str, i64),
     SetObj,
     SetNested(i64),
+    /// set_nested with a one-segment path: writes the top-level key
+    SetNestedTop(&'static str, i64),
     Remove(&'static str),
 }
 
@@ -40,7 +42,8 @@ pub fn alphabet(level: usize) -> Vec<Op> {
     match level {
         0 => vec![Begin, Commit, Rollback, Set("k1", 1), Set("k1", 2), Remove("k1")],
         1 => vec![Begin, Commit, Rollback, Set("k1", 1), Set("k1", 2), Set("k2", 1), SetObj, SetNested(2), Remove("k1"), Remove("o")],
-        _ => vec![Begin, Commit, Rollback, Set("k1", 1), Set("k1", 2), Set("k2", 1), SetObj, SetNested(1), SetNested(2), Remove("k1"), Remove("k2"), Remove("o")],
+        3 => vec![Begin, Commit, Rollback, Set("k1", 1), SetNestedTop("k1", 2), SetNestedTop("k2", 1), Remove("k1")],
+        _ => vec![Begin, Commit, Rollback, Set("k1", 1), Set("k1", 2), Set("k2", 1), SetObj, SetNested(1), SetNested(2), SetNestedTop("k1", 3), Remove("k1"), Remove("k2"), Remove("o")],
     }
 }
 
@@ -105,6 +108,12 @@ impl System for Sys {
                     }
                 }
             }
+            Op::SetNestedTop(k, v) => {
+                if let Err(e) = self.f.set_nested(k, Value::Integer(*v)) {
+                    return Err(Mismatch::new("set_nested_failed", format!("set_nested({}) with a one-segment path failed: {:?}", k, e)));
+                }
+                self.model.insert(k.to_string(), Value::Integer(*v));
+            }
             Op::Remove(k) => {
                 let got = self.f.remove(k);
                 let exp = self.model.remove(*k);
@@ -132,7 +141,7 @@ impl System for Sys {
             Op::Rollback => "rollback",
             Op::Set(..) => "set",
             Op::SetObj => "set_object",
-            Op::SetNested(_) => "set_nested",
+            Op::SetNested(_) | Op::SetNestedTop(..) => "set_nested",
             Op::Remove(_) => "remove",
         }
         .to_string()
@@ -144,8 +153,8 @@ impl System for Sys {
 
 pub fn run_frames(opts: &Opts) -> Vec<Report> {
     let plan: Vec<(&str, usize, usize)> = match opts.tier {
-        Tier::Quick => vec![("undo_full_len6", 2, 6), ("undo_mid_len7", 1, 7), ("undo_small_len9", 0, 9)],
-        Tier::Thorough => vec![("undo_full_len7", 2, 7), ("undo_mid_len8", 1, 8), ("undo_small_len10", 0, 10)],
+        Tier::Quick => vec![("undo_full_len6", 2, 6), ("undo_mid_len7", 1, 7), ("undo_small_len9", 0, 9), ("undo_top_level_set_nested_len8", 3, 8)],
+        Tier::Thorough => vec![("undo_full_len7", 2, 7), ("undo_mid_len8", 1, 8), ("undo_small_len10", 0, 10), ("undo_top_level_set_nested_len10", 3, 10)],
     };
     let mut out = vec![];
     for (name, level, depth) in plan {
